@@ -301,6 +301,17 @@ func (b *Built) structFor(g *GroupNode, c *CmdNode) reflect.Type {
 		}
 		fs = append(fs, reflect.StructField{Name: "G" + itoa(i), Type: ft, Tag: reflect.StructTag(strings.Join(t, " "))})
 	}
+	for i, ng := range g.NoFlag {
+		var nfs []reflect.StructField
+		for k, o := range ng.Opts {
+			nfs = append(nfs, reflect.StructField{Name: "NF" + itoa(k), Type: optFieldType(o), Tag: reflect.StructTag(optTag(o))})
+		}
+		t := tagKV("no-flag", "1")
+		if ng.Desc != "" {
+			t = tagKV("group", ng.Desc) + " " + t
+		}
+		fs = append(fs, reflect.StructField{Name: "N" + itoa(i), Type: reflect.StructOf(nfs), Tag: reflect.StructTag(t)})
+	}
 	if c != nil {
 		for i, sc := range c.Cmds {
 			if sc.Style != "tag" {
